@@ -211,5 +211,8 @@ Definition g_uniform_keys (c : gcircuit) : bool :=
   forallb (fun e => forallb (fun e' => negb (Nat.eqb (gkey c (gsrc e)) (gkey c (gsrc e')) && Nat.eqb (gkey c (gtgt e)) (gkey c (gtgt e')) &&
                                               Bool.eqb (g_is_delayed e) (g_is_delayed e')) ||
                                        Bool.eqb (has_spread e) (has_spread e')) (gedges c)) (gedges c).
+(* D110 (open, loud; see Ring.g_no_twin_collision): delayed edges leaving two variables of one operator do not compile *)
+Definition g_no_twin_collision (twins : list (nat * nat)) (c : gcircuit) : bool :=
+  fixed_twin_names || forallb (fun p => negb (gadd_delay c (gkey c (fst p)) && gadd_delay c (gkey c (snd p)))) twins.
 Definition gguards (c : gcircuit) : bool :=
   g_all_spread c && g_no_undelayed_kernel c && g_above_step c && g_rates_exact c && g_no_scalar_shared_chain c.
